@@ -194,6 +194,21 @@ func (rb *ResponseBuffer) Buffered() bool {
 	return !rb.stream
 }
 
+// WriteBuffered writes the response that was buffered into rb - header
+// fields, status code and body, just as the handler wrote them - to the
+// underlying ResponseWriter. It does nothing if the handler has not
+// written a response, or if the response was streamed and not buffered.
+func (rb *ResponseBuffer) WriteBuffered() {
+	if !rb.wroteHeader || rb.stream {
+		return
+	}
+	rb.CopyHeader()
+	rb.ResponseWriterWrapper.WriteHeader(rb.status)
+	if rb.Buffer.Len() > 0 {
+		rb.ResponseWriterWrapper.Write(rb.Buffer.Bytes())
+	}
+}
+
 // CopyHeader copies the buffered header in rb to the ResponseWriter,
 // but it does not write the header out.
 func (rb *ResponseBuffer) CopyHeader() {
